@@ -82,6 +82,31 @@ var subjects = []subject{
 			{"Commit", func(r *rng.R) { ch.Commit() }},
 			{"Rollback", func(r *rng.R) { ch.Rollback() }},
 			{"Buffer", func(r *rng.R) { ch.Buffer() }},
+			// composite: makes sure there IS something pending when Commit / Rollback run (the plain ops above mostly hit
+			// the "nothing to commit" error path when paired with an op that does not Get)
+			{"SendGetGetCommit", func(r *rng.R) {
+				for k := 0; k < 2; k++ {
+					select {
+					case src <- r.Intn(9):
+					default:
+					}
+					ctx, c := short()
+					ch.Get(ctx)
+					c()
+				}
+				ch.Commit()
+			}},
+			{"SendGetRollbackGet", func(r *rng.R) {
+				select {
+				case src <- r.Intn(9):
+				default:
+				}
+				ctx, c := short()
+				ch.Get(ctx)
+				ch.Rollback()
+				ch.Get(ctx)
+				c()
+			}},
 			{"Done", func(r *rng.R) { ch.Done() }},
 		}, func() { ch.Close() }
 	}},
